@@ -433,7 +433,7 @@ pub(crate) const fn is_unicast_global_ipv6(ip: &Ipv6Addr) -> bool {
         // address reserved for documentation (`2001:db8::/32`) [IETF RFC 3849]
         || (segments[0] == 0x2001) && (segments[1] == 0xdb8)
         // address reserved for documentation (`3fff::/20`) [IETF RFC 9637]
-        || (segments[0] & 0xfff0) == 0x3ff0
+        || (segments[0] == 0x3fff) && (segments[1] & 0xf000) == 0
         // segment routing identifiers, not globally reachable (`5f00::/16`) [IETF RFC 9602]
         || segments[0] == 0x5f00)
 }
